@@ -317,5 +317,10 @@ def gen(rng, d):
     return ("call", fn, [gen(rng, d - 1), L(rng.choice((2, 0.5))) if fn == "fmod" else gen(rng, d - 1)])
 
 
-def obligations(tier, seed):
+def _obligations(tier, seed):
     return [(nm, ob_formula(t, nm, **kw)) for nm, t, kw in families(tier, seed)]
+
+
+def obligations(tier, seed):
+    from . import conform
+    return _obligations(tier, seed) + conform.obligations(PROPERTY, tier)
